@@ -2863,13 +2863,13 @@ func RegexpRemoveExtCommunities(path *Path, exps []*regexp.Regexp, subtypes []bg
 	for _, comm := range comms {
 		match := false
 		// match only with transitive community. see RFC7153
-		if !isTransitiveType(comm) {
-			continue
-		}
-		for idx, exp := range exps {
-			if subTypeEqual(comm, subtypes[idx]) && exp.MatchString(comm.String()) {
-				match = true
-				break
+		// A non-transitive community never matches, so it is kept.
+		if isTransitiveType(comm) {
+			for idx, exp := range exps {
+				if subTypeEqual(comm, subtypes[idx]) && exp.MatchString(comm.String()) {
+					match = true
+					break
+				}
 			}
 		}
 		if !match {
